@@ -83,8 +83,23 @@ def episode1(ctx: Ctx, chk) -> None:
     req_nodes = g.nodes_where(lambda x: x.contains(req))
     tests = [t for t in g.nodes if t.kind == "test" and req_nodes and all(g.dominates(t, r) for r in req_nodes) and "internal_messages" in norm(t.ast)]
     good = False
+    tests = tests + [t for t in g.nodes if t.kind == "test" and req_nodes and all(g.dominates(t, r) for r in req_nodes) and t not in tests]
     for t in tests:
         te = t.ast
+        # `flag = key in marker ... if not flag:` -> look through the flag
+        pol = True
+        tt = te
+        while isinstance(tt, ast.UnaryOp) and isinstance(tt.op, ast.Not):
+            pol = not pol
+            tt = tt.operand
+        if isinstance(tt, ast.Name):
+            la = I.local_assigns(w).get(tt.id) or []
+            if len(la) == 1 and isinstance(la[0], ast.Compare) and len(la[0].ops) == 1 and isinstance(la[0].ops[0], (ast.In, ast.NotIn)):
+                c0 = la[0]
+                op = c0.ops[0]
+                if not pol:
+                    op = ast.NotIn() if isinstance(op, ast.In) else ast.In()
+                te = ast.copy_location(ast.Compare(left=c0.left, ops=[op], comparators=c0.comparators), c0)
         if isinstance(te, ast.Compare) and len(te.ops) == 1 and isinstance(te.ops[0], (ast.NotIn, ast.In)) and sb.buffer_attr(te.comparators[0]) == "internal_messages":
             kc = cn.canon(te.left)
             if kc == f"(In.node_id, 255, {pv})":
